@@ -66,3 +66,43 @@ func RemountContext(old sdk.Context) sdk.Context {
 	n := NewContext(old.BlockHeight(), 0, old.ChainID())
 	return n.WithBlockTime(old.BlockTime())
 }
+
+// StateSnap is a copy of every mounted KV store's contents.
+type StateSnap struct{ m map[string]map[string]string }
+
+func dumpStore(ctx sdk.Context, k storetypes.StoreKey) (out map[string]string) {
+	out = map[string]string{}
+	defer func() { _ = recover() }() // store not mounted in this context: empty
+	it := ctx.KVStore(k).Iterator(nil, nil)
+	defer it.Close()
+	for ; it.Valid(); it.Next() {
+		out[string(it.Key())] = string(it.Value())
+	}
+	return out
+}
+
+// Snapshot copies the contents of every KV store reachable from ctx.
+func Snapshot(ctx sdk.Context) *StateSnap {
+	s := &StateSnap{m: map[string]map[string]string{}}
+	for _, n := range storeOrder {
+		s.m[n] = dumpStore(ctx, storeKeys[n])
+	}
+	return s
+}
+
+// SameState reports whether every KV store reachable from ctx has exactly the contents recorded in s.
+func SameState(ctx sdk.Context, s *StateSnap) bool {
+	for _, n := range storeOrder {
+		cur := dumpStore(ctx, storeKeys[n])
+		old := s.m[n]
+		if len(cur) != len(old) {
+			return false
+		}
+		for k, v := range cur {
+			if ov, ok := old[k]; !ok || ov != v {
+				return false
+			}
+		}
+	}
+	return true
+}
